@@ -249,6 +249,13 @@ func VC15_Termination() {
 		rt.Assert(w.deliver(c04Request("NOTIFY", d, rt.Bool("from-callee"), true, state), "10.0.2.2", 5060, true), "NOTIFY decodes")
 		got, n := newSends(w, before)
 		rt.Assert(n == 1 && got == b, "the NOTIFY itself still reaches the pinned backend")
+		if n == 1 && got == b && rt.Bool("notify-answered") {
+			// the backend answers the NOTIFY (its response carries no Subscription-State): a terminated dialog stays dissolved
+			st := rt.Int("notify-status", 200, 299)
+			resp := "SIP/2.0 " + itoa(st) + " OK\r\n" + viaEcho(w.bs[b].sent[len(w.bs[b].sent)-1]) + "From: <" + d.furi + ">;tag=" + d.ftag + "\r\nTo: <" + d.turi + ">;tag=" + d.ttag +
+				"\r\nCall-ID: " + d.callID + "\r\nCSeq: 2 NOTIFY\r\nContent-Length: 0\r\n\r\n"
+			rt.Assert(w.deliver(resp, "10.0.1."+itoa(b+1), 5060, true), "NOTIFY response decodes")
+		}
 	}
 	// probe: a later request with the dialog's identifiers; rotation chosen so that the next
 	// load-balanced target differs from b
